@@ -432,7 +432,8 @@ def gen_tables():
             STATUS["h263." + const] = "untranslatable: %s" % e
     # DQUANT arms of decode_dquant
     try:
-        m = re.search(r"fn\s+decode_dquant\b.*?match\s+reader\.read_bits::<u8>\(2\)\?\s*\{(.*?)\}", mb, re.S)
+        # the first `match .. { .. }` of decode_dquant, whatever its scrutinee is called
+        m = re.search(r"fn\s+decode_dquant\b.*?\bmatch\s+[^{;]+\{(.*?)\}", mb, re.S)
         if not m:
             raise Untranslatable("decode_dquant match not found")
         arms = re.findall(r"(\d+)\s*=>\s*(-?\d+)\s*,", m.group(1))
